@@ -438,7 +438,10 @@ impl Args {
             failed = count_failed,
             detached = count_detached,
         );
-        print!("{}", renderer.render(&outcomes.iter().collect::<Vec<_>>())?);
+        // (not `print!`: that panics when STDOUT cannot be written to)
+        let rendered = renderer.render(&outcomes.iter().collect::<Vec<_>>())?;
+        std::io::Write::write_all(&mut std::io::stdout().lock(), rendered.as_bytes())
+            .context("write the result to STDOUT")?;
 
         if count_failed > 0 {
             Err(anyhow!(ValidationFailedError))
